@@ -117,7 +117,7 @@ def observe(fam, c, inst, caching):
         pre, allsel, qs = (), False, [n]
     elif fam == "c16":
         q, wspec, pre = c16.query_of(c + (caching,)), c16.wspec_of(c[0]), ()
-        allsel, qs = c[1] != "e", [q]
+        allsel, qs = c[1] != "e" and not c[2].startswith("unrel"), [q]      # (unrel*: an unselected variable, the result set)
     else:
         raise ValueError(fam)
 
